@@ -71,7 +71,7 @@ def register_wild(db):
         f"{EL}.bind_wild_var",
         params={"self": element_node, "params": "opaque:PyDict", "var": "opaque:XmlVar", "qname": "str", "value": "opaque:Any"},
         # AnyElement (the generic element class of the class type) declares a qname field
-        hints=["forall('u:Any', lambda x: implies(uf('isinstance_dyn_Any_type', 'bool', x, self.context.class_type.any_element), uf('hasattr_qname', 'bool', x)))"],
+        assumes=["forall('u:Any', lambda x: implies(uf('isinstance_dyn_Any_type', 'bool', x, self.context.class_type.any_element), uf('hasattr_qname', 'bool', x)))"],
         ensures=[("wildcards-absorb-any-value", "result == True")],
         raises={"ConverterError": True, "KeyError": True},
         properties=["C15", "C11"],
